@@ -275,3 +275,523 @@ Proof.
     exists b'. split; [exact Hb'|]. rewrite Hfl, flatten_snoc3. cbn [flat_map app concat flatten].
     rewrite Hf. reflexivity.
 Qed.
+
+(* ---------------------------------------------------------------- views of written records *)
+Lemma firstn_all_len : forall {A} (l : list A) n, length l = n -> firstn n l = l.
+Proof. intros A l n H. subst. apply firstn_all. Qed.
+
+Lemma back_conv_exemplar : forall c e, c_map_inc c = true -> exemplar_wf e = true ->
+  exists e', back_exemplar (conv_exemplar c e) = Ok e' /\ canon_ex e' = canon_ex e.
+Proof.
+  intros c e Hinc Hwf. unfold exemplar_wf in Hwf.
+  apply andb_true_iff in Hwf. destruct Hwf as [Hwf H8]. apply andb_true_iff in Hwf. destruct Hwf as [Ha H16].
+  apply Nat.eqb_eq in H8. apply Nat.eqb_eq in H16.
+  unfold back_exemplar, conv_exemplar. cbn [te_trace te_span te_ts te_val te_attrs].
+  rewrite H16, H8. cbn [Nat.ltb Nat.leb orb].
+  eexists. split; [reflexivity|]. unfold canon_ex. cbn [ex_ts ex_val ex_trace ex_span ex_attrs].
+  rewrite Hinc, conv_attrs_sorted_img.
+  rewrite (firstn_all_len _ _ H16), (firstn_all_len _ _ H8).
+  rewrite canon_back_img_sorted by exact Ha.
+  destruct (ex_val e); reflexivity.
+Qed.
+
+Lemma back_conv_exemplars : forall c l, c_map_inc c = true -> forallb exemplar_wf l = true ->
+  exists l', back_exemplars (conv_exemplars c l) = Ok l' /\ map canon_ex l' = map canon_ex l.
+Proof.
+  intros c l Hinc. unfold back_exemplars, conv_exemplars.
+  induction l as [|e r IH]; cbn [forallb map mapM_res]; intro Hwf.
+  - exists []. split; reflexivity.
+  - apply andb_true_iff in Hwf. destruct Hwf as [He Hr].
+    destruct (back_conv_exemplar c e Hinc He) as [e' [H1 H2]]. rewrite H1.
+    destruct (IH Hr) as [l' [H3 H4]]. cbn [mapM_res] in H3. rewrite H3.
+    exists (e' :: l'). split; [reflexivity|]. cbn [map]. rewrite H2, H4. reflexivity.
+Qed.
+
+Lemma flagged_no_value : flagged no_value_flags = true.
+Proof. reflexivity. Qed.
+
+(* what a record has to agree with, up to the canonical order of attribute collections *)
+Record stands_for (tm : t_metric) (tr : t_resource) (ts : t_scope) (ta : tattrs)
+       (R : res_id) (S : scope_id) (n d u : str) (meta attrs : oattrs) : Prop := mkStands {
+  sf_res : canon_res (back_res tr) = canon_res R;
+  sf_scope : canon_scope (back_scope ts) = canon_scope S;
+  sf_name : tm_name tm = n; sf_desc : tm_desc tm = d; sf_unit : tm_unit tm = u;
+  sf_meta : canon (back_attrs (tm_meta tm)) = canon meta;
+  sf_attrs : canon (back_attrs ta) = canon attrs }.
+
+Ltac view_start H :=
+  destruct H as [HR HS Hn Hd Hu Hme Hat];
+  unfold view; cbn [r_metric r_attrs r_point r_resource r_scope]; unfold back_metric.
+
+Lemma view_num_rec : forall c tm tr ts ta R S n d u meta p ft fm,
+  c_map_inc c = true -> c_back_ex c = true ->
+  stands_for tm tr ts ta R S n d u meta (np_attrs p) ->
+  forallb exemplar_wf (np_ex p) = true ->
+  ((tm_type tm = 0 /\ ft = None /\ fm = None) \/
+   (tm_type tm = 1 /\ temp_ok (tm_temp tm) = true /\ ft = Some (tm_temp tm) /\ fm = Some (tm_mono tm))) ->
+  view c (mkMRec tm tr ts ta
+            (mkTPoint (np_start p) (np_ts p) (conv_numval (np_flags p) (np_val p))
+                      (conv_exemplars c (np_ex p)))) =
+  Ok [mkFQ (canon_res R) (canon_scope S) (mkFQM n d u (canon meta) (tm_type tm) ft fm)
+           (canon (np_attrs p)) (np_start p) (np_ts p) (fv_num p) (map canon_ex (np_ex p))].
+Proof.
+  intros c tm tr ts ta R S n d u meta p ft fm Hinc Hbx Hsf Hex Hty. view_start Hsf.
+  destruct (back_conv_exemplars c (np_ex p) Hinc Hex) as [ex' [Hb Hc]].
+  assert (Hnum : exists q, back_num c ta (mkTPoint (np_start p) (np_ts p)
+                   (conv_numval (np_flags p) (np_val p)) (conv_exemplars c (np_ex p))) = Ok q /\
+            np_start q = np_start p /\ np_ts q = np_ts p /\ fv_num q = fv_num p /\
+            np_attrs q = back_attrs ta /\ map canon_ex (np_ex q) = map canon_ex (np_ex p)).
+  { unfold back_num, conv_numval, fv_num. cbn [tp_val tp_ex tp_start tp_ts]. rewrite Hbx.
+    destruct (flagged (np_flags p)); [|destruct (np_val p)]; rewrite Hb; cbn [rbind];
+      eexists; (split; [reflexivity|]); cbn; repeat split; assumption. }
+  destruct Hnum as [q [Hq [Q1 [Q2 [Q3 [Q4 Q5]]]]]].
+  destruct Hty as [[Ht [-> ->]]|[Ht [Hok [-> ->]]]]; rewrite Ht; cbn [N.eqb Pos.eqb rbind];
+    unfold append_point; cbn [m_data m_name m_desc m_unit m_meta]; rewrite Hq; cbn [rbind];
+    try rewrite Hok; cbn [rbind]; unfold flatten_metric; cbn [m_data map app];
+    unfold fq_of_metric; cbn [m_data m_name m_desc m_unit m_meta app map];
+    rewrite HR, HS, Hn, Hd, Hu, Hme, Q1, Q2, Q3, Q4, Q5, Hat; reflexivity.
+Qed.
+
+Lemma view_hist_rec : forall c tm tr ts ta R S n d u meta p v,
+  c_map_inc c = true -> c_back_ex c = true ->
+  stands_for tm tr ts ta R S n d u meta (hp_attrs p) ->
+  forallb exemplar_wf (hp_ex p) = true -> hp_count p < two64 ->
+  tm_type tm = 2 -> temp_ok (tm_temp tm) = true -> tm_bounds tm = hp_bounds p ->
+  conv_histval c p = Ok v ->
+  view c (mkMRec tm tr ts ta (mkTPoint (hp_start p) (hp_ts p) v (conv_exemplars c (hp_ex p)))) =
+  Ok [mkFQ (canon_res R) (canon_scope S) (mkFQM n d u (canon meta) 2 (Some (tm_temp tm)) None)
+           (canon (hp_attrs p)) (hp_start p) (hp_ts p) (fv_hist p) (map canon_ex (hp_ex p))].
+Proof.
+  intros c tm tr ts ta R S n d u meta p v Hinc Hbx Hsf Hex Hcnt Ht Hok Hbd Hv. view_start Hsf.
+  destruct (back_conv_exemplars c (hp_ex p) Hinc Hex) as [ex' [Hb Hc]].
+  rewrite Ht. cbn [N.eqb Pos.eqb rbind]. unfold append_point. cbn [m_data m_name m_desc m_unit m_meta].
+  unfold conv_histval in Hv. unfold back_hist, fv_hist. cbn [tp_val tp_ex tp_start tp_ts].
+  destruct (flagged (hp_flags p)) eqn:Efl.
+  - inversion Hv; subst v. rewrite Hbx, Hb. cbn [rbind]. rewrite Hok. cbn [rbind].
+    unfold flatten_metric. cbn [m_data map app]. unfold fq_of_metric, fv_hist.
+    cbn [m_data m_name m_desc m_unit m_meta app hp_flags hp_attrs hp_start hp_ts hp_ex].
+    rewrite flagged_no_value, HR, HS, Hn, Hd, Hu, Hme, Hat, Hc. reflexivity.
+  - destruct (hist_len_ok c p); try discriminate. inversion Hv; subst v. rewrite Hb. cbn [rbind].
+    rewrite Hok. cbn [rbind]. unfold flatten_metric. cbn [m_data map app]. unfold fq_of_metric, fv_hist.
+    cbn [m_data m_name m_desc m_unit m_meta app hp_flags hp_attrs hp_start hp_ts hp_ex hp_count
+         hp_sum hp_min hp_max hp_buckets hp_bounds th_count th_sum th_min th_max th_buckets].
+    change (flagged 0) with false. cbv iota.
+    rewrite (to_u64_i64 _ Hcnt), Hbd, HR, HS, Hn, Hd, Hu, Hme, Hat, Hc. reflexivity.
+Qed.
+
+Lemma back_conv_eb : forall b, in_i32 (eb_off b) = true -> back_eb (conv_eb b) = b.
+Proof.
+  intros [off cs] H. unfold back_eb, conv_eb. cbn [tb_off tb_counts eb_off eb_counts] in *.
+  rewrite to_i32_small; [reflexivity|]. unfold in_i32 in H. lia.
+Qed.
+
+Lemma view_exp_rec : forall c tm tr ts ta R S n d u meta p,
+  c_map_inc c = true -> c_back_ex c = true ->
+  stands_for tm tr ts ta R S n d u meta (xp_attrs p) ->
+  forallb exemplar_wf (xp_ex p) = true ->
+  in_i32 (xp_scale p) = true -> in_i32 (eb_off (xp_pos p)) = true -> in_i32 (eb_off (xp_neg p)) = true ->
+  tm_type tm = 3 -> temp_ok (tm_temp tm) = true ->
+  view c (mkMRec tm tr ts ta (mkTPoint (xp_start p) (xp_ts p) (conv_expval p) (conv_exemplars c (xp_ex p)))) =
+  Ok [mkFQ (canon_res R) (canon_scope S) (mkFQM n d u (canon meta) 3 (Some (tm_temp tm)) None)
+           (canon (xp_attrs p)) (xp_start p) (xp_ts p) (fv_exp p) (map canon_ex (xp_ex p))].
+Proof.
+  intros c tm tr ts ta R S n d u meta p Hinc Hbx Hsf Hex Hsc Hpo Hne Ht Hok. view_start Hsf.
+  destruct (back_conv_exemplars c (xp_ex p) Hinc Hex) as [ex' [Hb Hc]].
+  rewrite Ht. cbn [N.eqb Pos.eqb rbind]. unfold append_point. cbn [m_data m_name m_desc m_unit m_meta].
+  unfold conv_expval, back_exp, fv_exp. cbn [tp_val tp_ex tp_start tp_ts].
+  destruct (flagged (xp_flags p)) eqn:Efl.
+  - rewrite Hbx, Hb. cbn [rbind]. rewrite Hok. cbn [rbind].
+    unfold flatten_metric. cbn [m_data map app]. unfold fq_of_metric, fv_exp.
+    cbn [m_data m_name m_desc m_unit m_meta app xp_flags xp_attrs xp_start xp_ts xp_ex].
+    rewrite flagged_no_value, HR, HS, Hn, Hd, Hu, Hme, Hat, Hc. reflexivity.
+  - rewrite Hb. cbn [rbind]. rewrite Hok. cbn [rbind]. unfold flatten_metric. cbn [m_data map app].
+    unfold fq_of_metric, fv_exp.
+    cbn [m_data m_name m_desc m_unit m_meta app xp_flags xp_attrs xp_start xp_ts xp_ex xp_count
+         xp_sum xp_min xp_max xp_scale xp_zc xp_zt xp_pos xp_neg tx_count tx_sum tx_min tx_max
+         tx_scale tx_zc tx_pos tx_neg tx_zt].
+    change (flagged 0) with false. cbv iota.
+    rewrite (back_conv_eb _ Hpo), (back_conv_eb _ Hne).
+    rewrite to_i32_small by (unfold in_i32 in Hsc; lia).
+    rewrite HR, HS, Hn, Hd, Hu, Hme, Hat, Hc. reflexivity.
+Qed.
+
+Lemma view_summary_rec : forall c tm tr ts ta R S n d u meta p ex,
+  c_summary_flag c = true ->
+  stands_for tm tr ts ta R S n d u meta (yp_attrs p) ->
+  tm_type tm = 4 ->
+  view c (mkMRec tm tr ts ta (mkTPoint (yp_start p) (yp_ts p) (conv_sumval c p) ex)) =
+  Ok [mkFQ (canon_res R) (canon_scope S) (mkFQM n d u (canon meta) 4 None None)
+           (canon (yp_attrs p)) (yp_start p) (yp_ts p) (fv_sum p) []].
+Proof.
+  intros c tm tr ts ta R S n d u meta p ex Hsf' Hsf Ht. view_start Hsf.
+  rewrite Ht. cbn [N.eqb Pos.eqb rbind]. unfold append_point. cbn [m_data m_name m_desc m_unit m_meta].
+  unfold conv_sumval, back_summary, fv_sum. cbn [tp_val tp_ex tp_start tp_ts]. rewrite Hsf'. cbn [andb].
+  destruct (flagged (yp_flags p)) eqn:Efl; cbn [rbind]; unfold flatten_metric; cbn [m_data map app];
+    unfold fq_of_metric, fv_sum;
+    cbn [m_data m_name m_desc m_unit m_meta app yp_flags yp_attrs yp_start yp_ts yp_count yp_sum yp_q
+         ty_count ty_sum ty_q].
+  - rewrite flagged_no_value, HR, HS, Hn, Hd, Hu, Hme, Hat. reflexivity.
+  - change (flagged 0) with false. cbv iota. rewrite HR, HS, Hn, Hd, Hu, Hme, Hat. reflexivity.
+Qed.
+
+(* ---------------------------------------------------------------- the order-preserving converter *)
+Lemma back_conv_res : forall c prev R, c_map_inc c = true -> res_wf R = true ->
+  canon_res (back_res (conv_res c prev R)) = canon_res R.
+Proof.
+  intros c prev [url a d] Hinc Hwf. unfold res_wf in Hwf. cbn [rs_attrs rs_dropped] in Hwf.
+  apply andb_true_iff in Hwf. destruct Hwf as [Ha Hd]. apply N.ltb_lt in Hd.
+  unfold conv_res, back_res, canon_res. cbn [rs_url rs_attrs rs_dropped tr_url tr_attrs tr_dropped].
+  rewrite Hinc, conv_attrs_img, canon_back_img by exact Ha. rewrite to_u32_small by exact Hd. reflexivity.
+Qed.
+Lemma back_conv_res_sorted : forall c R, c_map_inc c = true -> res_wf R = true ->
+  canon_res (back_res (conv_res_sorted c R)) = canon_res R.
+Proof.
+  intros c [url a d] Hinc Hwf. unfold res_wf in Hwf. cbn [rs_attrs rs_dropped] in Hwf.
+  apply andb_true_iff in Hwf. destruct Hwf as [Ha Hd]. apply N.ltb_lt in Hd.
+  unfold conv_res_sorted, back_res, canon_res. cbn [rs_url rs_attrs rs_dropped tr_url tr_attrs tr_dropped].
+  rewrite Hinc, conv_attrs_sorted_img, canon_back_img_sorted by exact Ha.
+  rewrite to_u32_small by exact Hd. reflexivity.
+Qed.
+Lemma back_conv_scope : forall c prev S, c_map_inc c = true -> scope_wf S = true ->
+  canon_scope (back_scope (conv_scope c prev S)) = canon_scope S.
+Proof.
+  intros c prev [n v url a d] Hinc Hwf. unfold scope_wf in Hwf. cbn [sc_attrs sc_dropped] in Hwf.
+  apply andb_true_iff in Hwf. destruct Hwf as [Ha Hd]. apply N.ltb_lt in Hd.
+  unfold conv_scope, back_scope, canon_scope.
+  cbn [sc_name sc_version sc_url sc_attrs sc_dropped tsc_name tsc_version tsc_url tsc_attrs tsc_dropped].
+  rewrite Hinc, conv_attrs_img, canon_back_img by exact Ha. rewrite to_u32_small by exact Hd. reflexivity.
+Qed.
+Lemma back_conv_scope_sorted : forall c S, c_map_inc c = true -> scope_wf S = true ->
+  canon_scope (back_scope (conv_scope_sorted c S)) = canon_scope S.
+Proof.
+  intros c [n v url a d] Hinc Hwf. unfold scope_wf in Hwf. cbn [sc_attrs sc_dropped] in Hwf.
+  apply andb_true_iff in Hwf. destruct Hwf as [Ha Hd]. apply N.ltb_lt in Hd.
+  unfold conv_scope_sorted, back_scope, canon_scope.
+  cbn [sc_name sc_version sc_url sc_attrs sc_dropped tsc_name tsc_version tsc_url tsc_attrs tsc_dropped].
+  rewrite Hinc, conv_attrs_sorted_img, canon_back_img_sorted by exact Ha.
+  rewrite to_u32_small by exact Hd. reflexivity.
+Qed.
+
+(* fold_emit with an invariant on the carried state *)
+Lemma fold_emit_forall2 : forall {S O A Q} (f : S -> A -> res (list O * S))
+    (Inv : S -> Prop) (W : A -> Prop) (P : O -> Q -> Prop) (g : A -> list Q),
+  (forall s a o s', Inv s -> W a -> f s a = Ok (o, s') -> Forall2 P o (g a) /\ Inv s') ->
+  forall l s o s', Inv s -> Forall W l -> fold_emit f s l = Ok (o, s') ->
+  Forall2 P o (flat_map g l) /\ Inv s'.
+Proof.
+  intros S O A Q f Inv W P g Hstep. induction l as [|a r IH]; cbn [fold_emit flat_map]; intros s o s' Hi Hw H.
+  - inversion H; subst. split; [constructor|exact Hi].
+  - destruct (f s a) as [[o1 s1]| |] eqn:E1; try discriminate.
+    destruct (fold_emit f s1 r) as [[o2 s2]| |] eqn:E2; try discriminate.
+    inversion H; subst. inversion Hw; subst.
+    destruct (Hstep _ _ _ _ Hi H2 E1) as [F1 I1].
+    destruct (IH _ _ _ I1 H3 E2) as [F2 I2].
+    split; [apply Forall2_app; assumption|exact I2].
+Qed.
+
+Lemma flat_map_singleton : forall {A B} (f : A -> B) l, flat_map (fun x => [f x]) l = map f l.
+Proof. induction l; cbn; [reflexivity|]. rewrite IHl. reflexivity. Qed.
+
+Definition pview (c : cfg) (r : mrecord) (p : fqpoint) : Prop := view c r = Ok [p].
+
+(* invariant of the writer record while the points of metric m (type ty) under R, S are written *)
+Record winv (R : res_id) (S : scope_id) (m : metric) (w : mrecord) : Prop := mkWinv {
+  wi_res : canon_res (back_res (r_resource w)) = canon_res R;
+  wi_scope : canon_scope (back_scope (r_scope w)) = canon_scope S;
+  wi_name : tm_name (r_metric w) = m_name m;
+  wi_desc : tm_desc (r_metric w) = m_desc m;
+  wi_unit : tm_unit (r_metric w) = m_unit m;
+  wi_meta : canon (back_attrs (tm_meta (r_metric w))) = canon (m_meta m) }.
+
+Lemma winv_stands : forall c R S m w pt a, c_map_inc c = true -> attrs_wf a = true -> winv R S m w ->
+  stands_for (r_metric (set_point_attrs c w pt a)) (r_resource (set_point_attrs c w pt a))
+             (r_scope (set_point_attrs c w pt a)) (r_attrs (set_point_attrs c w pt a))
+             R S (m_name m) (m_desc m) (m_unit m) (m_meta m) a.
+Proof.
+  intros c R S m w pt a Hinc Ha [H1 H2 H3 H4 H5 H6]. unfold set_point_attrs.
+  cbn [r_metric r_resource r_scope r_attrs]. constructor; try assumption.
+  rewrite Hinc, conv_attrs_img. apply canon_back_img. exact Ha.
+Qed.
+
+Lemma record_eta : forall r, r = mkMRec (r_metric r) (r_resource r) (r_scope r) (r_attrs r) (r_point r).
+Proof. destruct r; reflexivity. Qed.
+
+Lemma winv_set_temp : forall R S m w t, winv R S m w -> winv R S m (set_temp w t).
+Proof. intros R S m w t [H1 H2 H3 H4 H5 H6]. unfold set_temp. constructor; cbn; assumption. Qed.
+Lemma winv_set_mono : forall R S m w b, winv R S m w -> winv R S m (set_mono w b).
+Proof. intros R S m w b [H1 H2 H3 H4 H5 H6]. unfold set_mono. constructor; cbn; assumption. Qed.
+
+Section UnsortedViews.
+  Variable c : cfg.
+  Hypothesis Hinc : c_map_inc c = true.
+  Hypothesis Hbx : c_back_ex c = true.
+  Hypothesis Hsf : c_summary_flag c = true.
+
+  Lemma write_metric_views : forall R S m w o w',
+    canon_res (back_res (r_resource w)) = canon_res R ->
+    canon_scope (back_scope (r_scope w)) = canon_scope S ->
+    metric_wf m = true ->
+    write_metric c w m = Ok (o, w') ->
+    Forall2 (pview c) o (flatten_metric R S m) /\
+    (canon_res (back_res (r_resource w')) = canon_res R /\
+     canon_scope (back_scope (r_scope w')) = canon_scope S).
+  Proof.
+    intros R S m w o w' HR HS Hwf. unfold metric_wf in Hwf. apply andb_true_iff in Hwf.
+    destruct Hwf as [Hmeta Hdata].
+    assert (Hhdr : forall ty, winv R S m (set_metric_hdr c w m ty)).
+    { intro ty. unfold set_metric_hdr. constructor; cbn [r_metric r_resource r_scope tm_name tm_desc tm_unit tm_meta];
+        try assumption; try reflexivity. rewrite Hinc, conv_attrs_img. apply canon_back_img. exact Hmeta. }
+    assert (Hall : forall {P} (wf : P -> bool) (ps : list P), forallb wf ps = true -> Forall (fun p => wf p = true) ps).
+    { intros P wf ps0 Hf. apply Forall_forall. intros x Hin. apply (proj1 (forallb_forall _ _) Hf x Hin). }
+    unfold write_metric, flatten_metric.
+    destruct (m_data m) as [|ps|t mono ps|t ps|t ps|ps] eqn:Ed; try discriminate; cbn [mdata_wf] in Hdata.
+    - (* gauge *)
+      intro H. rewrite <- flat_map_singleton.
+      match goal with |- Forall2 _ _ (flat_map ?g _) /\ _ => set (G := g) end.
+      set (Inv := fun w : mrecord => winv R S m w /\ tm_type (r_metric w) = 0).
+      assert (STEP : forall w p o w', Inv w -> numpoint_wf p = true -> write_num c w p = Ok (o, w') ->
+                     Forall2 (pview c) o (G p) /\ Inv w').
+      { clear H. intros wx p ox wx' Hi Hw Hf. subst G Inv. cbn beta in *.
+        destruct Hi as [Hi Hty]. unfold write_num in Hf. inversion Hf; subst ox wx'. clear Hf.
+        unfold numpoint_wf in Hw. apply andb_true_iff in Hw. destruct Hw as [Wa Wex].
+        split.
+        + constructor; [|constructor]. unfold pview.
+          pose proof (winv_stands c R S m wx
+             (mkTPoint (np_start p) (np_ts p) (conv_numval (np_flags p) (np_val p)) (conv_exemplars c (np_ex p)))
+             (np_attrs p) Hinc Wa Hi) as St.
+          pose proof (view_num_rec c _ _ _ _ R S _ _ _ _ p None None Hinc Hbx St Wex
+                        (or_introl (conj Hty (conj eq_refl eq_refl)))) as V.
+          unfold set_point_attrs in V |- *. cbn [r_metric r_resource r_scope r_attrs r_point] in V |- *.
+          unfold fq_of_metric. rewrite Ed. rewrite Hty in V. exact V.
+        + unfold set_point_attrs. cbn [r_metric r_resource r_scope]. split; [|exact Hty].
+          destruct Hi. constructor; assumption.
+      }
+      destruct (fold_emit_forall2 (write_num c) Inv _ (pview c) G STEP ps _ _ _ (conj (Hhdr 0) eq_refl) (Hall _ numpoint_wf ps Hdata) H)
+        as [F I].
+      split; [exact F|]. subst Inv. cbn beta in I. split; apply I.
+    - (* sum *)
+      destruct (temp_ok t) eqn:Etk; try discriminate.
+      intro H. rewrite <- flat_map_singleton.
+      match goal with |- Forall2 _ _ (flat_map ?g _) /\ _ => set (G := g) end.
+      set (Inv := fun w : mrecord => winv R S m w /\ tm_type (r_metric w) = 1 /\ temp_ok (tm_temp (r_metric w)) = true /\ (tm_temp (r_metric w) = t /\ tm_mono (r_metric w) = mono)).
+      assert (STEP : forall w p o w', Inv w -> numpoint_wf p = true -> write_num c w p = Ok (o, w') ->
+                     Forall2 (pview c) o (G p) /\ Inv w').
+      { clear H. intros wx p ox wx' Hi Hw Hf. subst G Inv. cbn beta in *.
+        destruct Hi as [Hi [Hty [Htm Hmo]]]. unfold write_num in Hf. inversion Hf; subst ox wx'. clear Hf.
+        unfold numpoint_wf in Hw. apply andb_true_iff in Hw. destruct Hw as [Wa Wex].
+        split.
+        + constructor; [|constructor]. unfold pview.
+          pose proof (winv_stands c R S m wx
+             (mkTPoint (np_start p) (np_ts p) (conv_numval (np_flags p) (np_val p)) (conv_exemplars c (np_ex p)))
+             (np_attrs p) Hinc Wa Hi) as St.
+          destruct Hmo as [Hmt Hmm].
+          pose proof (view_num_rec c _ _ _ _ R S _ _ _ _ p (Some (tm_temp (r_metric wx))) (Some (tm_mono (r_metric wx)))
+                        Hinc Hbx St Wex
+                        (or_intror (conj Hty (conj Htm (conj eq_refl eq_refl))))) as V.
+          unfold set_point_attrs in V |- *. cbn [r_metric r_resource r_scope r_attrs r_point] in V |- *.
+          unfold fq_of_metric. rewrite Ed. rewrite Hty, Hmt, Hmm in V. exact V.
+        + unfold set_point_attrs. cbn [r_metric r_resource r_scope]. split; [|auto].
+          destruct Hi. constructor; assumption.
+      }
+      destruct (fold_emit_forall2 (write_num c) Inv _ (pview c) G STEP ps _ _ _ (conj (winv_set_mono _ _ _ _ mono (winv_set_temp _ _ _ _ t (Hhdr 1))) (conj eq_refl (conj Etk (conj eq_refl eq_refl)))) (Hall _ numpoint_wf ps Hdata) H)
+        as [F I].
+      split; [exact F|]. subst Inv. cbn beta in I. split; apply I.
+    - (* histogram *)
+      destruct (temp_ok t) eqn:Etk; try discriminate.
+      intro H. rewrite <- flat_map_singleton.
+      match goal with |- Forall2 _ _ (flat_map ?g _) /\ _ => set (G := g) end.
+      set (Inv := fun w : mrecord => winv R S m w /\ tm_type (r_metric w) = 2 /\ tm_temp (r_metric w) = t).
+      assert (STEP : forall w p o w', Inv w -> histpoint_wf p = true -> write_hist c w p = Ok (o, w') ->
+                     Forall2 (pview c) o (G p) /\ Inv w').
+      { clear H. intros wx p ox wx' Hi Hw Hf. subst G Inv. cbn beta in *.
+        destruct Hi as [Hi [Hty Htm]]. unfold write_hist in Hf.
+        destruct (conv_histval c p) as [v| |] eqn:Ev; try discriminate. inversion Hf; subst ox wx'. clear Hf.
+        unfold histpoint_wf in Hw. apply andb_true_iff in Hw. destruct Hw as [Hw Wc].
+        apply andb_true_iff in Hw. destruct Hw as [Wa Wex]. apply N.ltb_lt in Wc.
+        split.
+        + constructor; [|constructor]. unfold pview.
+          pose proof (winv_stands c R S m wx
+             (mkTPoint (hp_start p) (hp_ts p) v (conv_exemplars c (hp_ex p))) (hp_attrs p) Hinc Wa Hi) as St.
+          unfold set_bounds, set_point_attrs in *. cbn [r_metric r_resource r_scope r_attrs r_point] in *.
+          assert (St' : stands_for
+                    (mkTMetric (tm_name (r_metric wx)) (tm_desc (r_metric wx)) (tm_unit (r_metric wx))
+                               (tm_type (r_metric wx)) (tm_meta (r_metric wx)) (hp_bounds p)
+                               (tm_temp (r_metric wx)) (tm_mono (r_metric wx)))
+                    (r_resource wx) (r_scope wx) (conv_attrs (c_map_inc c) (r_attrs wx) (hp_attrs p))
+                    R S (m_name m) (m_desc m) (m_unit m) (m_meta m) (hp_attrs p)).
+          { destruct St. constructor; cbn [tm_name tm_desc tm_unit tm_meta]; assumption. }
+          assert (Etk' : temp_ok (tm_temp (r_metric wx)) = true) by (rewrite Htm; exact Etk).
+          pose proof (view_hist_rec c _ _ _ _ R S (m_name m) (m_desc m) (m_unit m) (m_meta m) p v Hinc Hbx
+                        St' Wex Wc Hty Etk' eq_refl Ev) as V.
+          cbn [tm_temp] in V. unfold fq_of_metric. rewrite Ed. rewrite <- Htm. exact V.
+        + unfold set_bounds, set_point_attrs. cbn [r_metric r_resource r_scope tm_type tm_temp].
+          split; [|auto]. destruct Hi.
+          constructor; cbn [r_metric r_resource r_scope tm_name tm_desc tm_unit tm_meta]; assumption.
+      }
+      destruct (fold_emit_forall2 (write_hist c) Inv _ (pview c) G STEP ps _ _ _ (conj (winv_set_temp _ _ _ _ t (Hhdr 2)) (conj eq_refl eq_refl)) (Hall _ histpoint_wf ps Hdata) H)
+        as [F I].
+      split; [exact F|]. subst Inv. cbn beta in I. split; apply I.
+    - (* exponential histogram *)
+      destruct (temp_ok t) eqn:Etk; try discriminate.
+      intro H. rewrite <- flat_map_singleton.
+      match goal with |- Forall2 _ _ (flat_map ?g _) /\ _ => set (G := g) end.
+      set (Inv := fun w : mrecord => winv R S m w /\ tm_type (r_metric w) = 3 /\ tm_temp (r_metric w) = t).
+      assert (STEP : forall w p o w', Inv w -> exppoint_wf p = true -> write_exp c w p = Ok (o, w') ->
+                     Forall2 (pview c) o (G p) /\ Inv w').
+      { clear H. intros wx p ox wx' Hi Hw Hf. subst G Inv. cbn beta in *.
+        destruct Hi as [Hi [Hty Htm]]. unfold write_exp in Hf. inversion Hf; subst ox wx'. clear Hf.
+        unfold exppoint_wf in Hw.
+        apply andb_true_iff in Hw; destruct Hw as [Hw Wn]. apply andb_true_iff in Hw; destruct Hw as [Hw Wp].
+        apply andb_true_iff in Hw; destruct Hw as [Hw Ws]. apply andb_true_iff in Hw; destruct Hw as [Hw Wex].
+        split.
+        + constructor; [|constructor]. unfold pview.
+          pose proof (winv_stands c R S m wx
+             (mkTPoint (xp_start p) (xp_ts p) (conv_expval p) (conv_exemplars c (xp_ex p))) (xp_attrs p) Hinc Hw Hi) as St.
+          assert (Etk' : temp_ok (tm_temp (r_metric wx)) = true) by (rewrite Htm; exact Etk).
+          pose proof (view_exp_rec c _ _ _ _ R S _ _ _ _ p Hinc Hbx St) as V.
+          unfold set_point_attrs in V |- *. cbn [r_metric r_resource r_scope r_attrs r_point] in V |- *.
+          unfold fq_of_metric. rewrite Ed. rewrite Htm in V. apply V; assumption.
+        + unfold set_point_attrs. cbn [r_metric r_resource r_scope]. split; [|auto].
+          destruct Hi. constructor; assumption.
+      }
+      destruct (fold_emit_forall2 (write_exp c) Inv _ (pview c) G STEP ps _ _ _ (conj (winv_set_temp _ _ _ _ t (Hhdr 3)) (conj eq_refl eq_refl)) (Hall _ exppoint_wf ps Hdata) H)
+        as [F I].
+      split; [exact F|]. subst Inv. cbn beta in I. split; apply I.
+    - (* summary *)
+      intro H. rewrite <- flat_map_singleton.
+      match goal with |- Forall2 _ _ (flat_map ?g _) /\ _ => set (G := g) end.
+      set (Inv := fun w : mrecord => winv R S m w /\ tm_type (r_metric w) = 4).
+      assert (STEP : forall w p o w', Inv w -> sumpoint_wf p = true -> write_summary c w p = Ok (o, w') ->
+                     Forall2 (pview c) o (G p) /\ Inv w').
+      { clear H. intros wx p ox wx' Hi Hw Hf. subst G Inv. cbn beta in *.
+        destruct Hi as [Hi Hty]. unfold write_summary in Hf. inversion Hf; subst ox wx'. clear Hf.
+        unfold sumpoint_wf in Hw.
+        split.
+        + constructor; [|constructor]. unfold pview.
+          pose proof (winv_stands c R S m wx
+             (mkTPoint (yp_start p) (yp_ts p) (conv_sumval c p) (tp_ex (r_point wx))) (yp_attrs p) Hinc Hw Hi) as St.
+          pose proof (view_summary_rec c _ _ _ _ R S _ _ _ _ p (tp_ex (r_point wx)) Hsf St Hty) as V.
+          unfold set_point_attrs in V |- *. cbn [r_metric r_resource r_scope r_attrs r_point] in V |- *.
+          unfold fq_of_metric. rewrite Ed. exact V.
+        + unfold set_point_attrs. cbn [r_metric r_resource r_scope]. split; [|exact Hty].
+          destruct Hi. constructor; assumption.
+      }
+      destruct (fold_emit_forall2 (write_summary c) Inv _ (pview c) G STEP ps _ _ _ (conj (Hhdr 4) eq_refl) (Hall _ sumpoint_wf ps Hdata) H)
+        as [F I].
+      split; [exact F|]. subst Inv. cbn beta in I. split; apply I.
+  Qed.
+  Lemma write_scope_views : forall R sm w o w',
+    canon_res (back_res (r_resource w)) = canon_res R ->
+    scope_wf (sm_scope sm) = true -> forallb metric_wf (sm_metrics sm) = true ->
+    write_scope c w sm = Ok (o, w') ->
+    Forall2 (pview c) o (flatten_scope R sm) /\ canon_res (back_res (r_resource w')) = canon_res R.
+  Proof.
+    intros R sm w o w' HR Hs Hm H. unfold write_scope in H. unfold flatten_scope.
+    destruct (fold_emit_forall2 (write_metric c)
+                (fun w => canon_res (back_res (r_resource w)) = canon_res R /\
+                          canon_scope (back_scope (r_scope w)) = canon_scope (sm_scope sm))
+                (fun m => metric_wf m = true) (pview c) (flatten_metric R (sm_scope sm))
+                (fun w m o w' Hi Hw Hf => write_metric_views R (sm_scope sm) m w o w' (proj1 Hi) (proj2 Hi) Hw Hf)
+                (sm_metrics sm)
+                (mkMRec (r_metric w) (r_resource w) (conv_scope c (r_scope w) (sm_scope sm)) (r_attrs w) (r_point w))
+                o w'
+                (conj HR (back_conv_scope c (r_scope w) (sm_scope sm) Hinc Hs))
+                (proj2 (Forall_forall _ _) (fun m Hin => proj1 (forallb_forall _ _) Hm m Hin)) H) as [F I].
+    split; [exact F|apply I].
+  Qed.
+
+  Lemma write_res_views : forall rm w o w',
+    res_wf (rm_res rm) = true ->
+    forallb (fun sm => scope_wf (sm_scope sm) && forallb metric_wf (sm_metrics sm)) (rm_scopes rm) = true ->
+    write_res c w rm = Ok (o, w') ->
+    Forall2 (pview c) o (flatten_res rm).
+  Proof.
+    intros rm w o w' Hr Hs H. unfold write_res in H. unfold flatten_res.
+    destruct (fold_emit_forall2 (write_scope c)
+                (fun w => canon_res (back_res (r_resource w)) = canon_res (rm_res rm))
+                (fun sm => scope_wf (sm_scope sm) && forallb metric_wf (sm_metrics sm) = true)
+                (pview c) (flatten_scope (rm_res rm))
+                (fun w sm o w' Hi Hw Hf =>
+                   write_scope_views (rm_res rm) sm w o w' Hi
+                     (proj1 (proj1 (andb_true_iff _ _) Hw)) (proj2 (proj1 (andb_true_iff _ _) Hw)) Hf)
+                (rm_scopes rm)
+                (mkMRec (r_metric w) (conv_res c (r_resource w) (rm_res rm)) (r_scope w) (r_attrs w) (r_point w))
+                o w'
+                (back_conv_res c (r_resource w) (rm_res rm) Hinc Hr)
+                (proj2 (Forall_forall _ _) (fun sm Hin => proj1 (forallb_forall _ _) Hs sm Hin)) H) as [F _].
+    exact F.
+  Qed.
+
+  (* every record written by the order-preserving converter stands for the data point it was
+     written for, whatever the writer record held before *)
+  Theorem unsorted_views : forall w b recs, mbatch_wf b = true ->
+    to_stef_unsorted_from c w b = Ok recs -> Forall2 (pview c) recs (flatten b).
+  Proof.
+    intros w b recs Hwf. unfold to_stef_unsorted_from.
+    destruct (fold_emit (write_res c) w b) as [[o w']| |] eqn:E; try discriminate.
+    intro H. inversion H; subst. unfold flatten, mbatch_wf in *.
+    destruct (fold_emit_forall2 (write_res c) (fun _ => True)
+                (fun rm => res_wf (rm_res rm) &&
+                           forallb (fun sm => scope_wf (sm_scope sm) && forallb metric_wf (sm_metrics sm))
+                                   (rm_scopes rm) = true)
+                (pview c) flatten_res
+                (fun w rm o w' Hi Hw Hf =>
+                   conj (write_res_views rm w o w' (proj1 (proj1 (andb_true_iff _ _) Hw))
+                           (proj2 (proj1 (andb_true_iff _ _) Hw)) Hf) I)
+                b w recs w' I
+                (proj2 (Forall_forall _ _) (fun rm Hin => proj1 (forallb_forall _ _) Hwf rm Hin)) E) as [F _].
+    exact F.
+  Qed.
+End UnsortedViews.
+
+Lemma concat_singletons : forall {A} (l : list A), concat (map (fun p => [p]) l) = l.
+Proof. induction l; cbn; [reflexivity|]. rewrite IHl. reflexivity. Qed.
+
+Lemma views_of_pviews : forall c l ps,
+  Forall2 (pview c) (map snd l) ps -> views c l (map (fun p => [p]) ps).
+Proof.
+  intros c. induction l as [|fr l IH]; intros ps H; inversion H; subst; cbn [map]; constructor.
+  - assumption.
+  - apply IH. assumption.
+Qed.
+
+Definition flags_ok (l : list (mflags * mrecord)) : Prop :=
+  match l with [] => True | (_, r) :: l' => flags_sound r l' end.
+
+(* C17, order-preserving converter and back: the same list of fully qualified data points *)
+Theorem unsorted_roundtrip : forall c w b recs l,
+  c_map_inc c = true -> c_back_ex c = true -> c_summary_flag c = true ->
+  mbatch_wf b = true ->
+  to_stef_unsorted_from c w b = Ok recs ->
+  map snd l = recs -> flags_ok l ->
+  exists b', from_stef_flags c l = Ok b' /\ flatten b' = flatten b.
+Proof.
+  intros c w b recs l Hinc Hbx Hsf Hwf Hto Hl Hfl.
+  pose proof (unsorted_views c Hinc Hbx Hsf w b recs Hwf Hto) as V. rewrite <- Hl in V.
+  destruct (from_stef_views c l _ Hfl (views_of_pviews c l _ V)) as [b' [H1 H2]].
+  exists b'. split; [exact H1|]. rewrite H2. apply concat_singletons.
+Qed.
+
+(* ---------------------------------------------------------------- the sorting converter *)
+Lemma mapM_res_forall2 : forall {A B} (f : A -> res B) l r,
+  mapM_res f l = Ok r -> Forall2 (fun a x => f a = Ok x) l r.
+Proof.
+  induction l as [|a l IH]; cbn [mapM_res]; intros r H; [inversion H; constructor|].
+  destruct (f a) as [x| |] eqn:E; try discriminate.
+  destruct (mapM_res f l) as [xs| |] eqn:E2; try discriminate.
+  inversion H; subst. constructor; [exact E|apply IH; reflexivity].
+Qed.
+
+Lemma concat_res_mapM_forall2 : forall {A B Q} (f : A -> res (list B)) (P : B -> Q -> Prop)
+    (W : A -> Prop) (g : A -> list Q),
+  (forall a r, W a -> f a = Ok r -> Forall2 P r (g a)) ->
+  forall l r, Forall W l -> concat_res (mapM_res f l) = Ok r -> Forall2 P r (flat_map g l).
+Proof.
+  intros A B Q f P W g Hstep. induction l as [|a l IH]; cbn [mapM_res flat_map]; intros r Hw H.
+  - inversion H. constructor.
+  - destruct (f a) as [x| |] eqn:E; try discriminate.
+    destruct (mapM_res f l) as [xs| |] eqn:E2; try discriminate.
+    cbn in H. inversion H; subst. inversion Hw; subst.
+    apply Forall2_app; [apply Hstep; assumption|apply IH; [assumption|reflexivity]].
+Qed.
+
